@@ -207,7 +207,7 @@ def run_unit(u):
                 tcfg = sels.tune_to_tree(cfg, case.top_sn, rng)
                 for k3 in range(3):
                     ast = sels.gen_list(rng, rng.choice([1, 2, 2, 3]), tcfg if k3 else cfg)
-                    st, info = check_case(sv, case, ast, match_law=rng.random() < .15)
+                    st, info = check_case(sv, case, ast, cases.respelled(rng, ast, .1), match_law=rng.random() < .15)
                     if info.get('match_law_checked'):
                         bump('match_law_checked')
                     handle(case, ast, st, info, tops)
